@@ -98,9 +98,19 @@ def replay_state(st):
                 if abs(w_big - w_small) > 1e-9 * (1 + w_small):
                     bad.append(("C18.width-same-hull", dict(vectorized=vec, embedded="3-D", padded=len(Qbig), **where0), w_small, w_big))
             if ex["area2"] >= 0:
-                vq = float(dreye.compute_volume(Qbig.copy()))
-                if abs(vq - ex["area2"] / 2) > 1e-7 * (1 + ex["area2"]):
-                    bad.append(("C18.volume-value", dict(embedded="3-D", padded=len(Qbig), **where0), ex["area2"] / 2, vq))
+                # ... embedded in 3-, 4- and 5-D (affine span up to three dimensions below the ambient space)
+                for extra in (0, 1, 2):
+                    Qe = np.hstack([Qbig, np.zeros((len(Qbig), extra))])
+                    vq = float(dreye.compute_volume(Qe.copy()))
+                    if abs(vq - ex["area2"] / 2) > 1e-7 * (1 + ex["area2"]):
+                        bad.append(("C18.volume-value", dict(embedded="%d-D" % (3 + extra), padded=len(Qbig), **where0), ex["area2"] / 2, vq))
+            if ex["flat2"] >= 0:
+                # a collinear cloud padded to many points, in 3-D and 4-D: its volume is its length
+                for extra in (0, 1):
+                    Qe = np.hstack([Qbig, np.zeros((len(Qbig), extra))])
+                    vq = float(dreye.compute_volume(Qe.copy()))
+                    if abs(vq - ex["flat2"] ** 0.5) > 1e-7 * (1 + ex["flat2"] ** 0.5):
+                        bad.append(("C18.volume-value", dict(flat=True, embedded="%d-D" % (3 + extra), padded=len(Qbig), **where0), ex["flat2"] ** 0.5, vq))
         if ex["wcoef"] >= 0 and len(hist) <= 1:
             w_exact = CD[d] * ex["wcoef"]
             wbig = float(dreye.compute_mean_width(P.copy(), n=60000, seed=5, vectorized=True))
